@@ -198,9 +198,9 @@ def build_c12(repo):
     b_jnn = handler(src, log, "jmp_not_nil")
     b_unwrap = handler(src, log, "unwrap", [
         # R13: `let Some(primitive) = ctx.get_last_op_item_mut() else {..}` + `*primitive = v` -> read the top, write with set_last_op_item
-        Rule("R13", "ctx . get_last_op_item_mut ( )", "ctx . get_last_op_item ( )", count=1, why="&mut to the top element -> read, then set_last_op_item (same final stack)"),
+        Rule("R13", "ctx . get_last_op_item_mut ( )", "ctx . get_last_op_item ( )", why="&mut to the top element -> read, then set_last_op_item (same final stack)"),
         Rule("R1", "* $x . clone ( )", "clone_prim ( & * $x )", why="Box<Primitive> clone + deref"),
-        Rule("R13", "* primitive = $$e ;", "let verif_new = $$e ; ctx . set_last_op_item ( verif_new ) ;", count="+", why="write through the &mut -> set_last_op_item"),
+        Rule("R13", "* primitive = $$e ;", "let verif_new = $$e ; ctx . set_last_op_item ( verif_new ) ;", why="write through the &mut -> set_last_op_item"),
         Rule("R1", "let span = args . first ( ) . map ( String :: as_str ) ;", "", why="span text only feeds the error message"),
     ])
     b_into = handler(src, log, "unwrap_into", [
